@@ -22,7 +22,7 @@ PRINT_FORMS = {'emit', 'for', 'try', 'semiemit', 'callhelper_emit', 'if', 'async
 
 
 def make_cfg(rng):
-    cfg = gen.default_cfg(p_want=rng.choice([0.4, 0.6, 0.8]), p_tb=0.05,
+    cfg = gen.default_cfg(p_want=rng.choice([0.4, 0.6, 0.8]), p_tb=rng.choice([0.05, 0.05, 0.15]),
                           max_steps=rng.choice([4, 6, 9]), p_helper=0.1)
     cfg['p_say'] = rng.choice([0.0, 0.0, 0.2, 0.5])
     cfg['n_modules'] = (1, 1)
@@ -33,18 +33,52 @@ def make_cfg(rng):
     return cfg
 
 
+SILENT_FORMS = {'assign', 'semi', 'with', 'multicall', 'callmod', 'tq', 'callhelper', 'strdirective'}
+
+
+def stale_sources(steps, upto):
+    """text that statements before index ``upto`` really produced: (kind, pid),
+    most recent expression value first"""
+    import world as W
+    out = []
+    for st in reversed(steps[:upto]):
+        if st['form'] in W.VALUE_FORMS and st['form'] != 'emitop':
+            out.append({'kind': 'repr', 'pid': st['pts'][0]})
+        elif st['form'] in ('print', 'emit', 'emitop', 'write'):
+            out.append({'kind': 'out', 'pid': st['pts'][0]})
+    return out
+
+
 def corrupt_wants(rng, world):
     """with small probability corrupt one want in the *text* (C02's quantifier:
-    replaced / line appended / line prepended / last line dropped)"""
+    replaced / line appended / line prepended / last line dropped).  The
+    replacement / prepended line is either fresh text or text that was true
+    earlier in the same doctest (an earlier value's repr, an earlier line)."""
     import world as W
     cands = []
     for dtid, dt, mod in W.iter_doctests(world):
-        for st in dt['steps']:
+        for j, st in enumerate(dt['steps']):
             if st.get('want') in ('acc', 'last', 'repr'):
-                cands.append(st)
-    if cands:
-        st = rng.choice(cands)
-        st['want_corrupt'] = rng.choice(['replace', 'append', 'prepend', 'droplast'])
+                cands.append((dt, j, st))
+            elif not st.get('want') and st['form'] in SILENT_FORMS and not st.get('inline') and stale_sources(dt['steps'], j):
+                cands.append((dt, j, st))
+    if not cands:
+        return
+    dt, j, st = rng.choice(cands)
+    src = stale_sources(dt['steps'], j)
+    if not st.get('want'):
+        # a want where the statement produces nothing at all
+        st['want'] = 'stale'
+        st['stale'] = src[0] if rng.random() < 0.6 else rng.choice(src)
+        import gen
+        gen.fix_chunk_starts(dt['steps'])
+        return
+    kinds = ['replace', 'append', 'prepend', 'droplast']
+    if src:
+        kinds += ['stale_replace', 'stale_prepend', 'stale_replace']
+    st['want_corrupt'] = rng.choice(kinds)
+    if st['want_corrupt'].startswith('stale'):
+        st['stale'] = src[0] if rng.random() < 0.6 else rng.choice(src)
 
 
 def generate(rng, tier):
@@ -53,6 +87,12 @@ def generate(rng, tier):
     text_corruption = rng.random() < 0.15
     if text_corruption:
         corrupt_wants(rng, world)
+    if rng.random() < 0.3:
+        # doctests in which nothing, or only a part, runs (R5; and a skipped want is no want)
+        import world as W
+        for dtid, dt, mod in W.iter_doctests(world):
+            if rng.random() < 0.5:
+                gen.add_skips(rng, dt['steps'])
     ids = gen.doctest_ids(world)
     rng.shuffle(ids)
     ops = []
@@ -64,6 +104,13 @@ def generate(rng, tier):
         for d in ids[:rng.randint(1, 4)]:
             ops.append({'op': 'run_obj', 'dt': d, 'verbose': rng.choice([0, 0, 0, 1, 2, 3]),
                         'on_error': rng.choice(['return', 'return', 'raise'])})
+        if rng.random() < 0.35:
+            # the verdict of a run is about that run: the same object again
+            for _ in range(rng.randint(1, 3)):
+                again = dict(rng.choice(ops))
+                again['verbose'] = rng.choice([0, 0, 2])
+                again['on_error'] = 'return'
+                ops.insert(rng.randint(1, len(ops)), again)
     plan = []
     execs = common.predicted_execs(world, ops)
     r = rng.random()
@@ -136,7 +183,7 @@ def _text_corrupted(rec):
     import world as W
     for dtid, dt, mod in W.iter_doctests(rec['scn']['world']):
         for st in dt['steps']:
-            if st.get('want_corrupt'):
+            if st.get('want_corrupt') or st.get('want') == 'stale':
                 return True
     return False
 
